@@ -1,0 +1,28 @@
+//go:build verif
+
+// Contracts for the deductive verifier in /verif (comment-only; compiled only with -tags verif).
+
+package lru
+
+// The in-memory chain cache in front of the SQL chain store (C14): what Get returns is what the
+// expirable LRU holds under the key (nil on a miss or after expiry/eviction, never an error), and
+// Set files the chain under the key it was given.
+
+//@ func (*IssuanceChainCache).Get
+//@ props C14
+//@ modifies nothing
+//@ frame-trusted only the internal state of the expirable.LRU (private to that library) changes
+//@ site Get#1 as g
+//@ requires c != nil && c.cache != nil
+//@ ensures [a-miss-is-not-an-error] result1 == nil
+//@ ensures [returns-what-the-lru-holds-under-the-key] g.called && result0 == g.res0
+//@ at g assert [looks-up-the-key-bytes] frombytes(g.key, key)
+
+//@ func (*IssuanceChainCache).Set
+//@ props C14
+//@ modifies nothing
+//@ frame-trusted only the internal state of the expirable.LRU (private to that library) changes
+//@ site Add#1 as a
+//@ requires c != nil && c.cache != nil
+//@ ensures [never-fails] result == nil && a.called
+//@ at a assert [files-the-chain-under-the-key-bytes] frombytes(a.key, key) && a.value == chain
